@@ -242,6 +242,13 @@ pub struct World {
     /// Hard cap on processed events (run bound).
     pub max_events: u64,
     pub event_cap_hit: bool,
+    /// Server frames encoded so far (index of the next one).
+    pub frames_out: u64,
+    /// Armed in-flight damage: (frame index, mutation).
+    pub mutation: Option<(u64, crate::mutate::Mutation)>,
+    pub mutation_fired: Option<String>,
+    /// Wire length of every server frame encoded so far.
+    pub frame_lens: Vec<usize>,
 }
 
 static WORLD: Mutex<Option<World>> = Mutex::new(None);
@@ -285,6 +292,10 @@ pub fn install(cluster: Cluster, net: NetCfg, trace: bool) {
         connects: 0,
         max_events: 5_000_000,
         event_cap_hit: false,
+        frames_out: 0,
+        mutation: None,
+        mutation_fired: None,
+        frame_lens: Vec::new(),
     };
     *WORLD.lock().unwrap() = Some(w);
 }
@@ -898,3 +909,5 @@ pub fn sleep_ns(ns: u64) -> impl Future<Output = ()> {
 pub fn install_connector() {
     scylla::verif::set_connector(Some(Arc::new(Connector)));
 }
+
+pub fn world_note_rlimit() {}
